@@ -12,7 +12,7 @@ TRUSTED_BASE = [
 ]
 ASSUMPTIONS = [
     "exact tier: all payloads are small Gaussian integers so float32/float64 arithmetic is exact (entry bound 2^20 enforced by the generator)",
-    "Kernel, FFT, Jacobian, Hessian, matmat-defined operators are modelled as the oracle kind Gen (matrix supplied); KronSum is validated against the independent oracle only (its Coq proof is pending)",
+    "Kernel, FFT, Jacobian, Hessian, matmat-defined operators are modelled as the oracle kind Gen (matrix supplied)",
 ]
 
 
@@ -138,8 +138,8 @@ def run(ctx):
         return True
     cases = O.gen_cases(ctx, n, gen, ctx.budget(3, 4), accept=accept)
     obs = [O.run_impl(c) for c in cases]
-    # model vs implementation, inside Coq (KronSum trees: oracle only, see ASSUMPTIONS)
-    coq_idx = [i for i, c in enumerate(cases) if not O.has_kind(c["tree"], ("KronSum",))]
+    # model vs implementation, inside Coq
+    coq_idx = list(range(len(cases)))
     terms = [O.coq_case(cases[i], obs[i]) for i in coq_idx]
     failing, err = O.eval_in_coq("c01", terms, "check_fwd")
     mism = []
